@@ -307,6 +307,33 @@ func runC16(c *Ctx) {
 	// follow the flags desynchronises every later entry of the batch
 	checkAttrLadders(c, "R5", true)
 
+	// ---------- R6 a batch of the request server fits the frame the client accepts ----------
+	// one NAME reply holds every entry ListAt delivered; its size is entries x (two copies of the name + attributes)
+	// and the client drops the connection on a frame above 256 KiB.  Bounded only if the batch size is a small
+	// constant (and names are bounded, as on the os server) or the reply is split by encoded size.
+	if fl := p.Func("filelist"); fl != nil {
+		bounded := false
+		desc := "?"
+		eachInstr(fl, func(in ssa.Instruction) {
+			ms, ok := in.(*ssa.MakeSlice)
+			if !ok {
+				return
+			}
+			if k, ok := constInt(ms.Len); ok {
+				bounded = k > 0 && k <= 256
+				desc = fmt.Sprintf("constant %d", k)
+				return
+			}
+			for _, l := range leavesOf(ms.Len) {
+				if l.Kind == leafGlobal {
+					desc = "package variable " + l.V.Name()
+				}
+			}
+		})
+		c.check(bounded, "R6", "request server batch fits one frame", p.Pos(fl.Pos()), "batch size is a small constant or the reply is split by size",
+			"filelist puts a whole ListAt batch ("+desc+" entries, names of any length) into one NAME packet without looking at its encoded size: above 256 KiB the client refuses the frame, the listing fails with a lost connection and the session is dead")
+	}
+
 	// ---------- R1 request server cursor ----------
 	if fl := p.Func("filelist"); fl == nil {
 		c.missing("R1", "filelist")
